@@ -4,7 +4,7 @@ m=$1; id=$2; prop=$3; round=$4; need="$5"
 lc=$(echo $m | tr 'A-Z' 'a-z')
 mkdir -p /verif/seeded/$id
 cp /tmp/mut/$m/patch.diff /verif/seeded/$id/
-cp /tmp/mut/$m/test/zz_demo_${lc}_test.go /verif/seeded/$id/
+cp /tmp/mut/$m/test/zz_demo_${lc}_test.go /tmp/mut/$m/entry/zz_demo_${lc}_test.go /verif/seeded/$id/ 2>/dev/null
 cp /tmp/mut/$m/NOTES.md /verif/seeded/$id/ 2>/dev/null
 python3 - "$id" "$prop" "$need" "$round" "zz_demo_${lc}_test.go" <<'PY'
 import json,sys
